@@ -873,6 +873,21 @@ def run(ck: core.Check):
         ck.cov["overrides_in_source"] = {k: [list(x) for x in v] for k, v in gen.items() if k != "rows"}
     except Exception as e:  # noqa: BLE001
         brk(ck, "generated", "override table could not be extracted", f"{type(e).__name__}: {e}"[:300])
+    # tie G (inventory): normalised-AST hashes of the functions the model writes down, against the
+    # baseline the check was last validated on. A difference fails nothing, it escalates the counts.
+    boost = 1
+    try:
+        cur = c05_overrides.covered_hashes()
+        base = json.loads((core.VERIF / "harness" / "c05_source_baseline.json").read_text())
+        changed = sorted(k for k in set(cur) | set(base) if cur.get(k) != base.get(k))
+        ck.cov["modelled_functions"] = {"count": len(cur), "changed_since_baseline": changed}
+        if changed:
+            boost = 2
+            ck.log(f"modelled functions changed since the baseline ({len(changed)}): {changed[:6]} - doubling the sweep")
+            ck.notes.append(f"modelled functions differ from the baseline (sweep doubled): {changed}")
+    except Exception as e:  # noqa: BLE001
+        boost = 2
+        ck.cov["modelled_functions"] = {"error": f"{type(e).__name__}: {e}"[:200]}
     res = ck.lean(["SpoxModel.Props.C05"], audit="SpoxModel.Audit.C05")
     if ck.thorough:
         ck.leanchecker(["SpoxModel.Props.C05"])
@@ -914,7 +929,7 @@ def run(ck: core.Check):
         cwork += [op.key] * (ck.pick(50, 300) if op.name in DATA_DEP else ck.pick(8, 50))
     work = []
     for op in ops:
-        work += [op.key] * _budget(ck, op)
+        work += [op.key] * (_budget(ck, op) * boost)
     for lst in (hwork, cwork, work):
         rng.shuffle(lst)  # a slice mixes operators; order is still a function of the seed
     nflows = ck.pick(1500, 9000)
